@@ -611,6 +611,13 @@ func (tr *fnTrans) specCall(x ECall, env *specEnv) (Term, error) {
 		return T(and(app("<", "0", args[0].S), app("<", args[0].S), al), SBool), nil
 	case "arr":
 		return T(slArr(args[0].S), SInt), nil
+	case "deref": // contents of the cell a pointer refers to
+		if args[0].T == nil || args[0].T.Name != "Int" || args[0].T.Elem == nil {
+			return Term{}, fmt.Errorf("deref of non-pointer")
+		}
+		es := args[0].T.Elem
+		tr.touchHeap("H_"+es.Tag(), es, false)
+		return T(sel(env.heapTerm("H_"+es.Tag()), args[0].S), es), nil
 	case "off":
 		return T(slOff(args[0].S), SInt), nil
 	case "isNaN":
